@@ -23,8 +23,8 @@ SPEC = dict(
     technique='reference byte queue + ownership flag, guarded foreign blocks, ASan/UBSan/LSan',
     exhaustive={Q: False, T: False},
     jobs=[
-        job('hist', 'h_buffer', 'hist', cases={Q: 48000, T: 640000}, procs=16, probes=PROBES),
-        job('backlog', 'h_buffer', 'backlog', cases={Q: 1600, T: 16000}, procs=16),
+        job('hist', 'h_buffer', 'hist', cases={Q: 96000, T: 640000}, procs=16, probes=PROBES),
+        job('backlog', 'h_buffer', 'backlog', cases={Q: 3200, T: 16000}, procs=16),
     ],
     floors={Q: dict(ops=5000000, bytes_compared=2000000000, terminator_reads=10000000, compares=10000000, op_attach=100000, op_prepend=200000, op_self_argument=50000, op_poke_foreign=5000, non_owning_structure_checks=1000000,
                     backlog_drains=20000, **{'set:branches': 70, 'set:op_state_cells': 64}),
